@@ -23,7 +23,7 @@ CHECKS.update({
  "C05": ("snapmc", LAT + " over valid polygons AND every vertex sequence (repeats, 1-3 rings) of the invalid scopes, all four (keep, reverse) combinations per input; structural invariants + keep/no-keep differential",
    "Structural invariants of every returned ring and the keep/no-keep differential are checked on every input of the scopes, valid or not.", SNAP_NOTE + " Orientation is judged only for returned rings that are simple and have non-zero area.", "3/C05"),
  "C08": ("snapmc", LAT + " on 3- and 4-level round grids x every non-empty id subset; oracle: per-id result equals the result of requesting that id alone",
-   "Every subset of ids {0..3} is requested for every input of the scopes and compared id by id with the single-id request (presence included); id lists as written (descending, largest id not last, duplicates) on a 3-level grid; the multi-level families (thin frames, comb-sided holes) x every subset of {0,1,2}.", SNAP_NOTE, "3/C08"),
+   "Every subset of ids {0..3} is requested for every input of the scopes and compared id by id with the single-id request (presence included); id lists as written (descending, largest id not last, duplicates) on a 3-level grid; ids far apart on a six-level grid; vertices 1/512 pixel below / on / above a border of the coarsest id; a panic that occurs only when ids are requested together counts as a violation; the multi-level families (thin frames, comb-sided holes) x every subset of {0,1,2}.", SNAP_NOTE, "3/C08"),
  "C09": ("snapmc", "exhaustive enumeration of (grid, id, border, distance, vertex position, ring, flag) through the real snap.SnapPolygon vs half-open extent test on specified fixed-point quantisation",
    "on the 16x16-pixel grids every in-grid pixel x every pixel of the two-pixel frame around the grid as two vertices of one ring (outside vertex at every position, shell and hole); 19 grids (two origins, both corners of origin, two depths, two tile widths, RD at three ids) x 4 borders x 42 distances from 1e-10 to the whole extent x outside/inside x every vertex position, and x 4 corners x 35 pairs of distances from the two borders of the corner; each with the id alone and together with id 0 (both orders), keep on/off, both values of the ignore flag.", "Trusted: the extent of each grid computed from its definition; quantisation as specified (1e-10, truncating).", "3/C09"),
 })
@@ -43,12 +43,12 @@ CHECKS.update({
    "All walks over 2x2 / 5 / 3x2 pixel centres incl. revisits (length <= 12 quick, 14 thorough), all sequences with repeats on the half-pixel lattice, 1-3 rings incl. 1-2 point rings, multi-level, several rings x several ids (valid shells with holes and arbitrary ring sequences), plus valid scopes: no panic, no OutsideGridError, deterministic step budget (no wall-clock oracle).",
    "Trusted: the instrumenter's Tick insertion (semantics preserving), frozen budget constant A=64 (19x the largest ratio observed). Deep levels of real grids are covered under C03 (F6/F7).", "3/C06"),
  "C07": ("snapmc", "stateless exploration of map-iteration orders on the instrumented real code (every range over a map / maps.Keys is a choice point; iterative deviation bounding) + exhaustive ring-direction / reverse-flag / repetition checks on the un-instrumented code, with outcome digests compared between the two builds",
-   "Per input: all-ascending, all-descending and every execution with <= 1 (thorough 2) deviations (all n! permutations per occurrence for n<=4) must return deep-equal results; plain build: 3 repetitions, every subset of rings reversed, reverse flag relation; conformance: instrumented outcomes re-observed on the un-instrumented build.",
+   "Per input: all-ascending, all-descending and every execution with <= 1 (thorough 2) deviations (all n! permutations per occurrence for n<=4) must return deep-equal results; plain build: 3 repetitions, every subset of rings reversed (also with rings written closed), reverse flag relation, deepest-id blocks of the real grids, and history independence (every input of three small scopes snapped in enumeration order and again in reverse order with an unrelated call in between); conformance: instrumented outcomes re-observed on the un-instrumented build.",
    "Trusted: instrumenter rewrites (validated per run by the digest comparison), maps iterated inside third-party packages are not controlled.", "3/C07"),
 })
 CHECKS.update({
  "C10": ("pipemc", "stateless model checking of the real processing package (mechanically instrumented: every channel operation, select, go statement, WaitGroup / Mutex / Once operation, sync/atomic operation, timer / ticker / sleep and map iteration is a scheduling / choice point owned by a controlled scheduler that runs one goroutine at a time) for every feature stream of a bounded alphabet x outcome table, against a sequential reference of what each target must receive",
-   "All streams up to length 3 (1 target), 2 (2-3 targets) over non-polygon / polygon / 1-2 part multipolygon with every kept/dropped/split outcome vector, plus all streams up to length 2 over every non-polygon geometry type (point, line, multi types, collections incl. one holding a polygon, nil, pointer); per stream the default schedule and every schedule with <= 1 deviation (thorough: <= 2 preemptions) incl. all map-iteration orders of the target maps; received features compared exactly (identity, attributes, geometry, order) at hand-over and again at the target's final write; conformance: every scenario is also run on the un-instrumented package, free running at GOMAXPROCS 1 and 16, against the same reference.",
+   "All streams up to length 3 (1 target), 2 (2-3 targets) over non-polygon / polygon / 1-2 part multipolygon with every kept/dropped/split outcome vector, target id sets {3,5,8}, {0,7} and {-3,0,4}, plus all streams up to length 2 over every non-polygon geometry type (point, line, multi types, collections incl. one holding a polygon, nil, pointer); per stream the default schedule and every schedule with <= 1 deviation (thorough: <= 2 preemptions) incl. all map-iteration orders of the target maps; received features compared exactly (identity, attributes, geometry, order) at hand-over and again at the target's final write; conformance: every scenario is also run on the un-instrumented package, free running at GOMAXPROCS 1 and 16, against the same reference.",
    "Trusted: scheduler's channel/wait-group model (mismatch = harness error), instrumenter, fake source/targets; Polygon and 1-element MultiPolygon are identified.", "3/C10"),
  "C11": ("pipemc", "stateless model checking of the real (instrumented) processing package under a controlled scheduler: all schedules with state-hash pruning for the small configurations, iterative preemption / deviation bounding for the larger ones (a deviation = a preemption, a non-default map order, or a virtual timer firing while something else can move; the receiver of a rendezvous is scheduled separately from the sender, so executions are sequentially consistent interleavings); plus a separate free-running -race pass of the same harness bodies against the un-instrumented package",
    "Reader, snapper, router and N writer goroutines (N=1..5) with fake targets whose handling and final write are separately scheduled steps: no deadlock, no livelock (a repeated state in which only goroutines polling an atomic can move), no panic (send on closed, double close, negative wait group), no early return (every target finished its final write when ProcessFeatures returns; the caller's table switch is not observed), no leak, no drop/dup/reorder. One outcome per scenario expected and reported.",
@@ -56,10 +56,10 @@ CHECKS.update({
 })
 CHECKS.update({
  "C12": ("gpkgmc", "exhaustive enumeration of a finite lattice of (page size, feature count, content pattern, schema, geometry type) through the real TargetGeopackage on real SQLite files, read back with SQL and compared with the list of features handed over",
-   "Page sizes 1..3 (thorough 6) x counts 0..3p+1 x all content sequences over {small, extent-extending, empty} up to length 5 and all placements of <= 2 special features beyond x two schemas (geometry column in the middle, NULL patterns, values that conversions could damage) x polygon/multipolygon/point; all eight geometry type names a table may carry; a file-local srs_id; plus two tables written one after the other through one target (all pairs of nine short patterns x page sizes 1-2): rows, order, attributes, geometry, spatial index entries, recorded extent, table definition and SRS.",
+   "Page sizes 1..3 (thorough 6) x counts 0..3p+1 x all content sequences over {small, extent-extending, empty} up to length 5 and all placements of <= 2 special features beyond x two schemas (geometry column in the middle, NULL patterns, values that conversions could damage) x polygon/multipolygon/point; all eight geometry type names a table may carry; a file-local srs_id; a BIGINT key handed over in descending order with VARCHAR(20) NOT NULL / DOUBLE attributes; plus two tables written one after the other through one target (all pairs of nine short patterns x page sizes 1-2): rows, order, attributes, geometry, spatial index entries, recorded extent, table definition and SRS.",
    "Trusted: the spatialite driver stub (plain SQLite + pure-Go ST_ functions) stands in for libspatialite; a log.Fatal inside texel is reported as a violation with the case that was running.", "3/C12"),
  "C13": ("gpkgmc", "exhaustive enumeration of a union of fully enumerated sub-lattices of invocations of the real texel binary (built from the working tree with the driver stub by overlay) on generated source GeoPackages; every produced file compared table by table, row by row with a reference computed by the library from the decoded source rows",
-   "Id lists (single, descending, three, duplicates) x keep x reverse x page sizes; all 8 flag combinations via command line and environment, with and without an outside-grid feature; 5 target path shapes x fresh/overwrite/pre-existing+overwrite; overwrite with every non-empty proper subset of the requested targets pre-existing x three id lists; id lists with a repeated id x overwrite scenario; the off flags given explicitly as false; every ordering of every subset of >= 2 of the four table kinds (polygon, multipolygon, point, line) and sources with a table without rows; a family of 172 (thorough 516) sources (every sequence of <= 2 polygon kinds x multipolygon kinds, line/point tables); exact file set, rows, attributes, geometries, other tables copied, nothing of an old file survives.",
+   "Id lists (single, descending, three, duplicates) x keep x reverse x page sizes; all 8 flag combinations via command line and environment, with and without an outside-grid feature; 5 target path shapes x fresh/overwrite/pre-existing+overwrite; overwrite with every non-empty proper subset of the requested targets pre-existing x three id lists; id lists with a repeated id x overwrite scenario; tables whose key is no rowid alias stored in descending key order; the off flags given explicitly as false; every ordering of every subset of >= 2 of the four table kinds (polygon, multipolygon, point, line) and sources with a table without rows; a family of 172 (thorough 516) sources (every sequence of <= 2 polygon kinds x multipolygon kinds, line/point tables); exact file set, rows, attributes, geometries, other tables copied, nothing of an old file survives.",
    "Trusted: driver stub; reference uses snap.SnapPolygon of the same tree (C13 checks plumbing, not snapping).", "3/C13"),
 })
 CHECKS.update({
